@@ -51,16 +51,21 @@ ConvBad(r) ==
         \/ (c = "back_text" /\ r.text.ok /\ ~(r.back_text.ok /\ r.back_text.same))
         \/ (c = "back_dom" /\ r.dom.ok /\ ~(r.back_dom.ok /\ r.back_dom.same))}
 
-\* structural equality of two dumps, insensitive to member order (documents without repeated names)
-RECURSIVE EqDump(_, _)
-EqDump(a, b) ==
+\* structural equality of two dumps, insensitive to member order (documents without repeated names).  Numbers: equal dumps are
+\* equal, -0.0 equals 0.0 (as for the primitives); an integer against a float (0 vs 0.0, 1 vs 1.0) is left open (loose = TRUE
+\* answers "may be equal", loose = FALSE answers "must be equal").
+NumEq(a, b, loose) == \/ a = b
+                      \/ (a.k = "f64" /\ b.k = "f64" /\ a.e = 0 /\ b.e = 0 /\ a.m = <<0>> /\ b.m = <<0>>)
+                      \/ (loose /\ a.k # b.k)
+RECURSIVE EqDumpL(_, _, _)
+EqDumpL(a, b, loose) ==
   /\ a.t = b.t
   /\ CASE a.t \in {"null"} -> TRUE
        [] a.t = "bool" -> a.b = b.b
        [] a.t = "str" -> a.s = b.s
-       [] a.t = "num" -> a = b
-       [] a.t = "arr" -> Len(a.e) = Len(b.e) /\ \A i \in 1..Len(a.e) : EqDump(a.e[i], b.e[i])
-       [] a.t = "obj" -> Len(a.m) = Len(b.m) /\ \A i \in 1..Len(a.m) : \E j \in 1..Len(b.m) : a.m[i][1] = b.m[j][1] /\ EqDump(a.m[i][2], b.m[j][2])
+       [] a.t = "num" -> NumEq(a, b, loose)
+       [] a.t = "arr" -> Len(a.e) = Len(b.e) /\ \A i \in 1..Len(a.e) : EqDumpL(a.e[i], b.e[i], loose)
+       [] a.t = "obj" -> Len(a.m) = Len(b.m) /\ \A i \in 1..Len(a.m) : \E j \in 1..Len(b.m) : a.m[i][1] = b.m[j][1] /\ EqDumpL(a.m[i][2], b.m[j][2], loose)
        [] OTHER -> FALSE
 RECURSIVE DumpDups(_)
 DumpDups(d) == CASE d.t = "arr" -> \E i \in 1..Len(d.e) : DumpDups(d.e[i])
@@ -70,14 +75,14 @@ EqBad(r) ==
   {c \in {"reflexive", "symmetric", "value"} :
      \/ (c = "reflexive" /\ ~(r.aa /\ r.bb))
      \/ (c = "symmetric" /\ r.ab # r.ba)
-     \/ (c = "value" /\ ~DumpDups(r.da) /\ ~DumpDups(r.db) /\ r.ab # EqDump(r.da, r.db))}
+     \/ (c = "value" /\ ~DumpDups(r.da) /\ ~DumpDups(r.db) /\ ((r.ab /\ ~EqDumpL(r.da, r.db, TRUE)) \/ (~r.ab /\ EqDumpL(r.da, r.db, FALSE))))}
 
 \* a DOM value against a Rust primitive p of kind i64 / u64 / f64 / bool / str.  v1 = to_value(p), v2 = parse(to_string(p)),
 \* q another primitive of the same kind, v3 = parse(to_string(r)) for a primitive r of any kind.
-JType(k) == IF k \in {"i64", "u64", "f64"} THEN "num" ELSE k
+JType(k) == IF k \in {"i64", "u64", "f64"} THEN "num" ELSE IF k = "vec" THEN "arr" ELSE k
 EqPrimBad(e) ==
   IF e.panic THEN {"panic"}
-  ELSE LET r == e.r  exact == e.kind \in {"i64", "u64", "bool", "str"} /\ e.rkind \in {"i64", "u64", "bool", "str"} IN
+  ELSE LET r == e.r  exact == e.kind \in {"i64", "u64", "bool", "str", "vec"} /\ e.rkind \in {"i64", "u64", "bool", "str", "vec"} IN
   {c \in {"prim-tovalue", "prim-parsed", "prim-distinct", "prim-symmetric", "prim-cross", "prim-same", "prim-exact"} :
      \/ (c = "prim-tovalue" /\ ~(r.a1 /\ r.a2))                  \* to_value(p) == p, both argument orders
      \/ (c = "prim-parsed" /\ ~(r.b1 /\ r.b2))                   \* parse(to_string(p)) == p
